@@ -71,6 +71,7 @@ func main() {
 	maxSteps := flag.Int("maxsteps", 3000000, "instruction limit per path")
 	maxPaths := flag.Int("maxpaths", 0, "stop after this many paths (0 = all)")
 	witness := flag.Int("witness", 0, "attach a witness model to every n-th ok path")
+	blockedModels := flag.Bool("blockedmodels", false, "attach the inputs of paths that end blocked")
 	known := flag.String("known", "", "known_findings.json")
 	verbose := flag.Bool("v", false, "verbose")
 	slog := flag.String("solverlog", "", "write worker 0's solver input here")
@@ -171,7 +172,7 @@ func main() {
 		fatal(fmt.Errorf("harness vfH_%s not found in %s", *harness, hpkg.Pkg.Path()))
 	}
 	c := Config{Harness: *harness, Pkg: *pkgPat, Workers: *workers, SolverKind: *solver, TimeoutMs: *timeout,
-		MaxSteps: *maxSteps, MaxPaths: *maxPaths, WitnessEach: *witness, Verbose: *verbose, SolverLog: *slog, AltSolver: *alt, NoMerge: *nomerge}
+		MaxSteps: *maxSteps, MaxPaths: *maxPaths, WitnessEach: *witness, BlockedModels: *blockedModels, Verbose: *verbose, SolverLog: *slog, AltSolver: *alt, NoMerge: *nomerge}
 	if *budget > 0 {
 		c.Deadline = time.Now().Add(time.Duration(*budget) * time.Second)
 	}
